@@ -198,7 +198,6 @@ func init() {
 	}
 }
 
-
 // ---- C17: vm_call queries (read-only contract calls) ---------------------------------------------
 
 type vmCallResult struct {
